@@ -54,6 +54,22 @@ def add (b : DispatcherBuilder) (tag : SysTag) (name : String) (dep : List Strin
     else
       ({ b with stagesBuilder := b.stagesBuilder.insert dependencies id tag d }, none)
 
+/-- `add` when a callback of the *user's* system panics inside `stages_builder.insert` —
+`accessor()` and `running_time()` are called there before anything is mutated (stage.rs
+l.262-275): the id is consumed and a non-empty name is recorded, but no stage table changes.
+`none`: the registration got as far as the callback; `some p`: it was rejected before. -/
+def addCallbackPanics (b : DispatcherBuilder) (name : String) (dep : List String) :
+    DispatcherBuilder × Option BuildPanic :=
+  let id := b.currentId
+  let b := { b with currentId := b.currentId + 1 }
+  match resolve b.map dep with
+  | .error x => (b, some (.unknownDep x))
+  | .ok _ =>
+    if name ≠ "" then
+      if (lookup b.map name).isSome then (b, some (.duplicateName name))
+      else ({ b with map := (name, id) :: b.map }, none)
+    else (b, none)
+
 /-- `has_system` (l.129) and `contains` (l.201): `map.contains_key(name)` -/
 def hasSystem (b : DispatcherBuilder) (name : String) : Bool := (lookup b.map name).isSome
 
